@@ -242,6 +242,7 @@ class Model:
         self.accept = {}
         self.ambiguous = set()
         self.shared = 0
+        self.content_choice = 0     # groups whose admissible definitions differ in content
         for n, cands in self.groups.items():
             g = F_GLOBAL if any(r["flags"] & F_GLOBAL for _, r in cands) else 0
             fd = [(t, r) for t, r in cands if r["flags"] & F_FULLY]
@@ -255,6 +256,9 @@ class Model:
             self.accept[n] = acc
             if len(acc) > 1:
                 self.ambiguous.add(n)
+                strip = [{k: v for k, v in a.items() if k not in ("lib", "mod")} for a in acc]
+                if any(x != strip[0] for x in strip[1:]):
+                    self.content_choice += 1
             if len(cands) > 1 and not (cands[0][1]["flags"] & F_ATOMIC):
                 self.shared += 1
         # lookup tables: kind -> name -> set of acceptable structural names
@@ -475,6 +479,8 @@ def run_history(fam, perm, kinds, placed, timeout=60):
     names = st["names"]
     # ---- query answers
     found = notfound = 0
+    ngap = len(placed)
+    gapres = []
     for line, ex in zip(lines, expect):
         if ex is None:
             continue
@@ -482,6 +488,8 @@ def run_history(fam, perm, kinds, placed, timeout=60):
         got = json.loads(line)
         m = model_for(fam, prefix) if prefix else None
         if s[0] == "counts":
+            if len(gapres) < ngap:
+                gapres.append("C")
             want = m.counts if m else {k: 0 for k in ("global_types", "types", "global_functions",
                                                       "functions", "manifests", "globals")}
             have = {k: got.get(k) for k in want}
@@ -492,6 +500,8 @@ def run_history(fam, perm, kinds, placed, timeout=60):
         acc = m.lookup[kind].get(name, set()) if m else set()
         idx = got.get("index")
         kd = "T" if kind in ("tn", "tsn", "ttn") else ("M" if kind == "mn" else "E")
+        if len(gapres) < ngap:
+            gapres.append("F" if acc else "N")
         if not acc:
             notfound += 1
             if idx != 0:
@@ -506,6 +516,7 @@ def run_history(fam, perm, kinds, placed, timeout=60):
                 problems.append("lookup %s %r after requesting %s returned index %s = %s (reported name %r); model has %s"
                                 % (kind, name, "".join(prefix), idx, names[kd].get(idx), got.get("got"), sorted(acc)))
     info["found"] = found
+    info["gap"] = "".join(sorted(gapres))
     info["notfound"] = notfound
     return problems, info
 
@@ -764,9 +775,11 @@ def main():
                     key = history_key(name, perm, kinds, placed)
                     m = model_for(name, perm)
                     nontrivial = len(perm) >= 2 and m.shared >= 1
-                    outcome = "n=%d kinds=%s q=%d found=%s winners=%s" % (
-                        len(perm), "uniform" if len(set(kinds)) == 1 else "mixed", len(placed),
-                        "y" if info.get("found", 0) > 0 else "n", "order" if info.get("winners") else "fixed")
+                    merge = "none" if len(perm) < 2 else (
+                        "content-choice" if m.content_choice else
+                        ("owner-choice" if m.ambiguous else "determined"))
+                    outcome = "n=%d kinds=%s gap-queries=%s merge=%s" % (
+                        len(perm), "".join(sorted(set(kinds))), info.get("gap") or "-", merge)
                     if problems:
                         outcome = "FAIL " + outcome
                     ck.note(key, nontrivial=nontrivial, outcome=outcome, family=name,
